@@ -75,12 +75,12 @@ def split_programs(lines):
     return out
 
 
-def falsified(group):
+def falsified(group, fid=999999):
     """Binding self-test input: a copy of one program's trace whose last Validate line is falsified."""
     g = json.loads(json.dumps(group))
-    g[0]["prog"] = 999999
+    g[0]["prog"] = fid
     for ln in g[1:]:
-        ln["prog"] = 999999
+        ln["prog"] = fid
     v = g[-1]
     if v["err"] != "":
         v["err"] = ""          # claims a successful run that looked at no object although objects exist
@@ -226,17 +226,23 @@ def run(ctx):
         if batch == 0:
             ctx.sample({"calls": progs[0]["calls"][:6], "cases_fs": progs[0]["cases"]["fs"][:2]})
             # binding self-test input: one program with objects, its last Validate line falsified
-            st = [g for g in gs if has_objects(g)]
-            extra = [falsified(st[0])] if st else []
+            st = [g for g in gs if has_objects(g)][:3]
+            extra = [falsified(g, 999999 - i) for i, g in enumerate(st)]
         recs, drp = validate(ctx, gs + extra)
         if batch == 0 and extra:
-            fake = [r for r in recs if r["prog"] == 999999]
-            recs = [r for r in recs if r["prog"] != 999999]
-            orig = [r["verdict"] for r in recs if r["prog"] == st[0][0]["prog"]]
-            if not fake or fake[-1]["verdict"] != "mismatch" or [r["verdict"] for r in fake[:-1]] != orig[:-1]:
-                raise vlib.Infra("binding self-test failed: a falsified validator report was not (exactly) rejected: %s vs %s" %
-                                 ([r["verdict"] for r in fake], orig))
-            ctx.extra["binding_selftest"] = "falsified report (copy of program %s) rejected" % st[0][0]["prog"]
+            # a falsified copy is conclusive if the original line was explained (not itself a mismatch)
+            fakes = {r["prog"]: r["verdict"] for r in recs if r["prog"] >= 999990}     # last record per copy wins
+            recs = [r for r in recs if r["prog"] < 999990]
+            concl = []
+            for i, g in enumerate(st):
+                orig = [r["verdict"] for r in recs if r["prog"] == g[0]["prog"]]
+                if orig and orig[-1] != "mismatch":
+                    concl.append(fakes.get(999999 - i))
+            if concl and all(v == "mismatch" for v in concl):
+                ctx.extra["binding_selftest"] = "%d falsified report(s) (copies of programs %s) rejected" % (
+                    len(concl), [g[0]["prog"] for g in st])
+            elif concl:
+                raise vlib.Infra("binding self-test failed: a falsified validator report was accepted: %s" % concl)
         records += recs
         dropped += drp
         groups += gs
